@@ -153,9 +153,15 @@ package soyhtml
 // failed write ends in errorf (which never returns), so no function in the
 // render closure returns normally after one of its own writes failed and none
 // issues a further write after a failure.
+// C03: the escaping mode of a state is chosen when the state is created (from
+// the namespace) and changed at exactly one place: on entering a template that
+// declares its own autoescape attribute. No command can switch it off for the
+// rest of a template.
 //@ func (*state).walk
 //@   like stateMethod
 //@   props C12 C08 C09 C03
+//@   onlywriter[escaping-mode-set-only-on-entering-a-template;C03] soyhtml.state.autoescape
+//@   at call store#1 assert[escaping-mode-set-only-on-entering-a-template;C03] typeis(node, *ast.TemplateNode) && val == unbox(node, *ast.TemplateNode).Autoescape && val != 0
 //@   splitreturns
 //@   requires[has-frame;C02] len(s.context) >= 1
 //@   at call (*state).walk#* assert[lets-run-in-their-list-frame;C02] typeis(arg1, *ast.LetValueNode) || typeis(arg1, *ast.LetContentNode) ==> typeis(node, *ast.ListNode)
@@ -401,14 +407,14 @@ package soyhtml
 // same frame.
 //@ functype *
 //@   modifies *
-//@   preserves F!github.com/robfig/soy/ast.* F!github.com/robfig/soy/template.* E!Iface E!Int E!Str E!|S!github.com/robfig/soy/template.* G!github.com/robfig/soy/* F!github.com/robfig/soy/soyhtml.Tofu!* F!github.com/robfig/soy/soyhtml.Renderer!* F!github.com/robfig/soy/soyhtml.state!* E!|S!github.com/robfig/soy/soyhtml.scopeframe| M!* MD!* ML F!github.com/robfig/soy/soyhtml.state!autoescape F!github.com/robfig/soy/soyhtml.state!namespace
+//@   preserves F!github.com/robfig/soy/ast.* F!github.com/robfig/soy/template.* E!Iface E!Int E!Str E!|S!github.com/robfig/soy/template.* G!github.com/robfig/soy/* F!github.com/robfig/soy/soyhtml.Tofu!* F!github.com/robfig/soy/soyhtml.Renderer!* F!github.com/robfig/soy/soyhtml.state!* E!|S!github.com/robfig/soy/soyhtml.scopeframe| M!* MD!* ML
 
 //@ functype renderFn
 //@   params s
 //@   props C08 C09
 //@   requires[render-started] renderBase <= allocmark()
 //@   modifies *
-//@   preserves F!github.com/robfig/soy/ast.* F!github.com/robfig/soy/template.* E!Iface E!Int E!Str E!|S!github.com/robfig/soy/template.* G!github.com/robfig/soy/* F!github.com/robfig/soy/soyhtml.Tofu!* F!github.com/robfig/soy/soyhtml.Renderer!* F!github.com/robfig/soy/soyhtml.state!* E!|S!github.com/robfig/soy/soyhtml.scopeframe| M!* MD!* ML F!github.com/robfig/soy/soyhtml.state!autoescape F!github.com/robfig/soy/soyhtml.state!namespace
+//@   preserves F!github.com/robfig/soy/ast.* F!github.com/robfig/soy/template.* E!Iface E!Int E!Str E!|S!github.com/robfig/soy/template.* G!github.com/robfig/soy/* F!github.com/robfig/soy/soyhtml.Tofu!* F!github.com/robfig/soy/soyhtml.Renderer!* F!github.com/robfig/soy/soyhtml.state!* E!|S!github.com/robfig/soy/soyhtml.scopeframe| M!* MD!* ML
 //@   mapwrites owned
 
 // Caller data (C08): a map is "owned" by the render when it was allocated
@@ -426,7 +432,7 @@ package soyhtml
 //@   props C08 C09
 //@   requires[render-started] renderBase <= allocmark()
 //@   modifies *
-//@   preserves F!github.com/robfig/soy/ast.* F!github.com/robfig/soy/template.* E!Iface E!Int E!Str E!|S!github.com/robfig/soy/template.* G!github.com/robfig/soy/* F!github.com/robfig/soy/soyhtml.Tofu!* F!github.com/robfig/soy/soyhtml.Renderer!* F!github.com/robfig/soy/soyhtml.state!autoescape F!github.com/robfig/soy/soyhtml.state!namespace
+//@   preserves F!github.com/robfig/soy/ast.* F!github.com/robfig/soy/template.* E!Iface E!Int E!Str E!|S!github.com/robfig/soy/template.* G!github.com/robfig/soy/* F!github.com/robfig/soy/soyhtml.Tofu!* F!github.com/robfig/soy/soyhtml.Renderer!*
 //@   mapwrites owned
 
 //@ func newScope
